@@ -77,8 +77,8 @@ def applyP (h : PHeap) (cross : Bool) : Option PHeap :=
   | some n2index =>
   match N1.br[n12index]?, N2.br[n22index]?, N1.br[n1n2index]? with
   | some e1, some e2, some ec =>
-    -- if e1.Right() == n.n1 { n.n1.Edges()[n1n2index].Inverse() }
-    let edge1 := if (h.edge e1).right = .n .n1 then updE h.edge ec ⟨(h.edge ec).right, (h.edge ec).left⟩ else h.edge
+    -- if e1.Right() == n.n1 || e2.Right() == n.n2 { n.n1.Edges()[n1n2index].Inverse() }   (48c858a)
+    let edge1 := if (h.edge e1).right = .n .n1 ∨ (h.edge e2).right = .n .n2 then updE h.edge ec ⟨(h.edge ec).right, (h.edge ec).left⟩ else h.edge
     -- n1.Edges()[n12index] = e2 ; n1.Neigh()[n12index] = n22node
     let node1 := updN h.node .n1 ⟨N1.neigh.set n12index (.n x), N1.br.set n12index e2⟩
     -- n22node.Neigh()[n2index] = n1
@@ -114,8 +114,8 @@ def undoP (h : PHeap) (cross : Bool) : Option PHeap :=
   | some n1index =>
   match N1.br[n11index]?, N2.br[n12index]?, N1.br[n1n2index]? with
   | some e1, some e2, some ec =>
-    -- if e2.Right() == n.n2 { n.n1.Edges()[n1n2index].Inverse() }
-    let edge1 := if (h.edge e2).right = .n .n2 then updE h.edge ec ⟨(h.edge ec).right, (h.edge ec).left⟩ else h.edge
+    -- if e2.Right() == n.n2 || e1.Right() == n.n1 { n.n1.Edges()[n1n2index].Inverse() }   (48c858a)
+    let edge1 := if (h.edge e2).right = .n .n2 ∨ (h.edge e1).right = .n .n1 then updE h.edge ec ⟨(h.edge ec).right, (h.edge ec).left⟩ else h.edge
     -- n1.Edges()[n11index] = e2 ; n1.Neigh()[n11index] = n1_2
     let node1 := updN h.node .n1 ⟨N1.neigh.set n11index (.n .b), N1.br.set n11index e2⟩
     -- n1_2.Neigh()[n2index] = n1
